@@ -7,7 +7,9 @@ Local Open Scope N_scope.
 (* ---------- printer: lyxml_dump_text(out, text, attribute) ----------
    The switch of the C function is scraped from the source on every run (Gen/Consts.v, tie T1):
    a byte with an entry is replaced (entries flagged attribute-only apply when [attr]), every
-   other byte is written unchanged. *)
+   other byte is written unchanged. Present table (pinned by XmlTextP.xml_esc_table_expected):
+   ampersand, less-than, greater-than -> predefined entities; CR -> &#xD; (since 6fdbff2);
+   only in attribute values: TAB -> &#x9;, LF -> &#xA; (since 47fa563), double quote -> &quot;. *)
 Fixpoint esc_lookup (t : list (N * bool * bytes)) (attr : bool) (b : N) : bytes :=
   match t with
   | [] => [b]
